@@ -399,7 +399,7 @@ Section Refinement.
     end.
   Proof.
     induction bs as [|b bs IH]; intros doneB s Hb HE Hg.
-    - cbn [activate_blocks blocks_step]. Show. rewrite app_nil_r, <- Hb, put_id. reflexivity.
+    - cbn [activate_blocks blocks_step]. rewrite <- Hb, put_id. reflexivity.
     - cbn [activate_blocks blocks_step].
       assert (Hg' : blocks_general bs) by (intros b' Hin; apply Hg; right; exact Hin).
       destruct (b_enabled b) eqn:Hen.
